@@ -224,6 +224,12 @@ def run(ctx):
             continue
         cl = sorted(x["clauses"])
         if e["mode"] == "solo" and e["n"] > 16:
+            # no bookkeeper address exists for more than MULTI_SIG_MAX_PUBKEY_SIZE (16) keys, so in such a world there is no
+            # "canonical" header that must be accepted (since fix fbe1a29/ef67c94 the ledger refuses every such list): only
+            # the safety clause (accepted => quorum of the set in force) is judged there
+            cl = [c for c in cl if c != "rule"]
+            if not cl:
+                continue
             key = SOLO17
         elif poisoned:
             key = poisoned
